@@ -346,14 +346,14 @@ WHAT = {
 def backend_table(check, repo, backend, only_methods=None, rule="K-pw", refusal_ok=()):
     """refusal_ok: groups in which a ValueError instead of the value still counts
     as exact (C14 asks for no wrong value; C16 asks for the same outcome)."""
+    from ..par import pmap
     be = Backend(repo, backend)
     groups = {}
     n = 0
-    for (group, meth, a, args, exp, static) in rows():
-        if only_methods is not None and meth not in only_methods:
-            continue
+    todo = [r for r in rows() if only_methods is None or r[1] in only_methods]
+    gots = pmap(lambda r: be.observe(r[1], r[2], r[3], r[5]), todo)
+    for (group, meth, a, args, exp, static), got in zip(todo, gots):
         n += 1
-        got = be.observe(meth, a, args, static)
         g = groups.setdefault(group, [0, []])
         g[0] += 1
         if group in refusal_ok and got[0] == "raises" and "ValueError" in got[1]:
